@@ -308,14 +308,35 @@ const vrtQuietFor = 25 * time.Millisecond
 
 func vrtTouch() { atomic.StoreInt64(&vrtLastActivity, time.Now().UnixNano()) }
 
+var (
+	vrtQuiesceMu    sync.Mutex
+	vrtQuiesceStack []int
+	vrtQuiesceSeq   int
+)
+
+// vrtQuiesce may be called from a hook inside a library goroutine while the
+// harness itself waits for quiescence: the innermost (most recent) caller
+// finishes first, the others wait for it and then for quiet again.
 func vrtQuiesce() {
+	vrtQuiesceMu.Lock()
+	vrtQuiesceSeq++
+	me := vrtQuiesceSeq
+	vrtQuiesceStack = append(vrtQuiesceStack, me)
+	vrtQuiesceMu.Unlock()
 	vrtTouch()
 	for {
 		time.Sleep(2 * time.Millisecond)
-		if time.Now().UnixNano()-atomic.LoadInt64(&vrtLastActivity) > int64(vrtQuietFor) {
-			return
+		vrtQuiesceMu.Lock()
+		top := vrtQuiesceStack[len(vrtQuiesceStack)-1] == me
+		vrtQuiesceMu.Unlock()
+		if top && time.Now().UnixNano()-atomic.LoadInt64(&vrtLastActivity) > int64(vrtQuietFor) {
+			break
 		}
 	}
+	vrtQuiesceMu.Lock()
+	vrtQuiesceStack = vrtQuiesceStack[:len(vrtQuiesceStack)-1]
+	vrtQuiesceMu.Unlock()
+	vrtTouch()
 }
 
 var vrtClockOffset int64 // harness clock = real clock + offset (native side)
